@@ -63,6 +63,10 @@ func (c *Case) Print(lay func() gen.Layout) {
 			l = lay()
 		}
 		c.Texts[name] = gen.Print(prog, l)
+		if len(prog) == 0 {
+			// a script without statements is a text of its own kind: a comment and a line end (the empty text is no script)
+			c.Texts[name] = "# nothing to do here\n"
+		}
 	}
 }
 
@@ -191,6 +195,9 @@ func runLoadedV1(c *Case, s *plrt.Script, fields map[string]any, fireAt int) Imp
 	var out ImplOut
 	pt := impl.NewPoint(c.Meas, c.Tags, fields)
 	sig := &probe.Sig{FireAt: fireAt, RaiseAtRec: c.RaiseAtRec}
+	if c.Fuel > 3_000_000 {
+		sig.MaxPolls = 4 * c.Fuel // a case that is long on purpose
+	}
 	func() {
 		defer func() {
 			if r := recover(); r != nil {
